@@ -409,9 +409,10 @@ class _FilePersistence(_ConcretePersistence):
         data_point.add_measurement(measurement)
 
         if measurement.is_total():
-            run_id.loaded_data_point(data_point,
-                                     (measurement.iteration <= run_id.warmup_iterations
-                                      if run_id.warmup_iterations else False))
+            if run_id.is_first_copy(measurement.invocation, measurement.iteration, self):
+                run_id.loaded_data_point(data_point,
+                                         (measurement.iteration <= run_id.warmup_iterations
+                                          if run_id.warmup_iterations else False))
             data_point = DataPoint(run_id)
         return data_point, previous_run_id
 
@@ -529,7 +530,8 @@ class _ProfileFilePersistence(_FilePersistence):
         if filtered_data_file:
             filtered_data_file.write(line)
 
-        run_id.loaded_data_point(data_point, False)
+        if run_id.is_first_copy(data_point.invocation, None, self):
+            run_id.loaded_data_point(data_point, False)
         return data_point, run_id
 
 
